@@ -84,6 +84,39 @@ CLAIMED = {
             "training set (by content), names and LDA flag are unchanged and otherwise rates once with the given "
             "arguments; rate() gives 0 / -1 / prediction as stated. The prediction's range and determinism rest on "
             "scikit-learn (assumed) plus fixed random_state and shipped responses in 0..10 (checked).", "3 C09"),
+    "C04": ("other", "contract-based deductive verification: data-flow/write-back postconditions of the real "
+            "IndentationFitter._fit under an assumed lmfit.minimize contract and uninterpreted model callables; "
+            "pointwise contracts of residual and compute_contact_point_weights; bounded numeric consistency on "
+            "real fits",
+            "For all arrays, masks, k > 0, weights and parameter records: the fit column is the model of the "
+            "fitted parameters on the whole segment in corrected coordinates and NaN elsewhere, residuals "
+            "likewise with the contact-point weights, fixed parameters keep their value, the reported contact "
+            "point is converted back exactly once, an unsuccessful fit leaves NaN columns and success False and "
+            "writes nothing else. chi-square = sum of squares and bounds are lmfit's assumed contract, checked "
+            "numerically (bounded).", "3 C04"),
+    "C05": ("other", "contract-based deductive verification: mask postcondition of IndentationFitter.fit (absolute and "
+            "contact-point-relative ranges, _fit under contract with ghost pass log), use/xmin/xmax clauses of _fit "
+            "with definitional min/max axioms; bounded stand-in for the plateau search",
+            "For every curve, segment, interval (closed, inverted, zero-width, ends on samples) the points handed "
+            "to the optimiser are exactly segment AND interval; relative ranges are anchored at the previously "
+            "fitted contact point in each of the four passes; xmin/xmax are attained extreme abscissae in "
+            "uncorrected units. The plateau search (filters, labelling) is external numerics and is bounded.",
+            "3 C05"),
+    "C10": ("proof", "contract-based deductive verification: frame (mutation log) and ownership (object identity) "
+            "obligations generated by the symbolic executor on the real bodies of every API function taking a "
+            "mutable argument; bounded in-place-edit scenarios on a recorded curve",
+            "For all argument values: nothing reachable from an argument is written to by fit/_fit, "
+            "apply_preprocessing, preproc.apply, autosort, rate_quality, the model, residual and weight "
+            "functions; everything stored (fit properties, remembered pipeline, rating key) or handed out "
+            "(initial parameters) is a fresh copy, so an in-place edit is noticed when passed again.", "3 C10"),
+    "C11": ("proof", "contract-based deductive verification: homogeneity lemma per power-law model over the C02 "
+            "postconditions (z3 nlsat with a pow-multiplicativity instance) plus unit and frame obligations on the "
+            "real _fit/fit under the assumed lmfit.minimize contract; bounded k-vs-1 fits",
+            "For all k > 0: M(k x; E k^-p, k cp, b) = M(x; E, cp, b), so minimisers correspond; lmfit gets x*k "
+            "and the initial contact point scaled exactly once in every pass (initial parameters are never "
+            "written to), reported cp, xmin, xmax are converted back to measured units, the fit column is the "
+            "model at k*x. That the optimiser returns corresponding minimisers is assumed and exercised bounded.",
+            "3 C11"),
 }
 
 NOT_APPLICABLE = {
